@@ -130,7 +130,7 @@ class Engine(ExprMixin, CallMixin):
 
     def feasible(self, st, extra=None):
         s = z3.Solver()
-        s.set("rlimit", 400000)  # deterministic budget (not wall-clock): same paths on a loaded machine
+        s.set("rlimit", 2000000)  # deterministic budget (not wall-clock): same paths on a loaded machine
         for h in st.pc:
             s.add(h)
         if extra is not None:
